@@ -557,6 +557,7 @@ static pthread_mutex_t ev_mtx = PTHREAD_MUTEX_INITIALIZER;
 static nng_socket   socks[NSOCK];
 static int          sock_open[NSOCK];
 static int          cbclose_n[NSOCK][4]; // callbacks of that event which still close their pipe (-1: all)
+static int          cb_block_sock = -1, cb_block_ms, cb_block_n; // scenario mode: the next n ADD_PRE callbacks of that socket sleep
 static uint64_t     cb_seed;             // scenario mode: pseudo-random reject decisions
 static int          cb_rej_pre, cb_rej_post; // per mille
 static nng_dialer   dials[NEP];
@@ -603,6 +604,18 @@ pipe_cb(nng_pipe p, nng_pipe_ev ev, void *arg)
 	int doclose = 0;
 	log_rec(s, (uint32_t) nng_pipe_id(p), (int) ev, nng_dialer_id(nng_pipe_dialer(p)),
 	    nng_listener_id(nng_pipe_listener(p)), 0);
+	pthread_mutex_lock(&ev_mtx);
+	int block = 0;
+	if (ev == NNG_PIPE_EV_ADD_PRE && s == cb_block_sock && cb_block_n > 0) {
+		cb_block_n--;
+		block = cb_block_ms;
+	}
+	pthread_mutex_unlock(&ev_mtx);
+	if (block > 0) {
+		// a slow application callback: the listener's accept callback is stuck in here, no accept is outstanding
+		struct timespec ts = { block / 1000, (block % 1000) * 1000000L };
+		nanosleep(&ts, NULL);
+	}
 	pthread_mutex_lock(&ev_mtx);
 	if (ev >= 1 && ev <= 3 && cbclose_n[s][ev] != 0) {
 		if (cbclose_n[s][ev] > 0) cbclose_n[s][ev]--;
